@@ -111,6 +111,39 @@ def sym_stripper(vc):
                    'load.stripper#L0', identity=None, get_fn=get_fn, min_paths=2)
 
 
+def sym_rename_duplicate_headers(vc):
+    """load.rename_duplicate_headers -- BOUNDED STRUCTURE (3 headers, symbolic text, loop unrolled): position-wise, a header whose
+    key (the text, lower-cased unless case_sensitive) occurs once is returned as it is; the k-th occurrence of a repeated key is
+    the header text followed by the format applied to k -- the header text itself is never interpreted as a template"""
+    import z3
+    from pyvc.api import real_function, check, cover, sym_str, PyList, term, StrS, IntS
+    fk = vc.under_contract(P + 'load.py', ['load', 'rename_duplicate_headers'])
+    vc.bounded_label = 'structure unrolled: exactly 3 headers'
+    for cs in (True, False):
+        def thunk(it, cs=cs):
+            L = real_function(it, 'dataflows.processors.load', 'load')
+            fn = L.methods.get('rename_duplicate_headers') or it.lib.getattr_(it, L, 'rename_duplicate_headers')
+            hs = [sym_str(it, 'h%d' % i) for i in range(3)]
+            out = it.call(fn, [PyList(list(hs))], dict(case_sensitive=cs, deduplicate_format=' (%s)'))
+            from pyvc.lib import LOWER as LOW
+            key = [h.t if cs else LOW(h.t) for h in hs]
+            ok = isinstance(out, PyList) and len(out.items) == 3
+            check(it, 'one-name-per-header[cs=%s]' % cs, ok)
+            if not ok:
+                return
+            I2S = lambda n: z3.StringVal(str(n))
+            for i in range(3):
+                occ_before = sum([z3.If(key[j] == key[i], 1, 0) for j in range(i)]) if i else z3.IntVal(0)
+                occ_total = sum([z3.If(key[j] == key[i], 1, 0) for j in range(3)])
+                o = term(out.items[i], StrS)
+                want = z3.If(occ_total == 1, hs[i].t,
+                             z3.If(occ_before == 0, z3.Concat(hs[i].t, z3.StringVal(' (1)')),
+                                   z3.If(occ_before == 1, z3.Concat(hs[i].t, z3.StringVal(' (2)')), z3.Concat(hs[i].t, z3.StringVal(' (3)')))))
+                check(it, 'header-%d-kept-or-suffixed-with-its-ordinal[cs=%s]' % (i, cs), o == want)
+            cover(it, 'reachable[cs=%s]' % cs)
+        vc.explore(fk, thunk, min_paths=2)
+
+
 def sym_tuple_source(vc):
     """load((descriptor, iterators)): the same matcher filters descriptors and iterators position-wise"""
     import z3
@@ -220,11 +253,17 @@ def nat_wrappers(h):
 def nat_headers(h):
     from dataflows.processors.load import load
     pool = ['a', 'A', 'b', 'a (1)', 'a (2)', 'c', 'B']
+    # header text is data: format characters in it ('%', '{}') are part of the name, not of a template
+    odd = ['share %', '100%', '%s', '50%%off', '{}', '{0}', '%(x)s', 'SHARE %']
     for _ in range(h.n(150, 1500)):
-        hdrs = [h.rng.choice(pool[:3] + pool[5:]) for _ in range(h.rng.randint(1, 5))]
+        src = pool[:3] + pool[5:] if h.rng.random() < 0.6 else odd + ['a']
+        hdrs = [h.rng.choice(src) for _ in range(h.rng.randint(1, 5))]
         cs = h.rng.random() < 0.5
         fmt = h.rng.choice([' (%s)', '_%s'])
-        out = load.rename_duplicate_headers(list(hdrs), case_sensitive=cs, deduplicate_format=fmt)
+        res = h.run(lambda: load.rename_duplicate_headers(list(hdrs), case_sensitive=cs, deduplicate_format=fmt))
+        if not h.check(res[0] == 'ok', P + 'load.py::load.rename_duplicate_headers', (hdrs, cs, fmt), 'headers made unique', res[:2]):
+            continue
+        out = res[1]
         keyf = (lambda s: s) if cs else (lambda s: s.lower())
         ok = len(out) == len(hdrs) and len(set(map(keyf, out))) == len(out)
         # position-wise: a header is kept, or is the header plus a formatted counter
@@ -348,6 +387,6 @@ ITEMS = [
     Item('load.process_resources', K16.sym_appenders, [], P + 'load.py::load.process_resources'),
     Item('ResourceMatcher', K10.ITEMS[0].symbolic, [], 'dataflows/helpers/resource_matcher.py::ResourceMatcher.match'),
     Item('schema_validator', K14.sym_schema_validator, [], 'dataflows/base/schema_validator.py::schema_validator'),
-    Item('headers', None, [('de-duplication', nat_headers), ('collision', nat_headers_finding)], P + 'load.py::load.rename_duplicate_headers'),
+    Item('headers', sym_rename_duplicate_headers, [('de-duplication', nat_headers), ('collision', nat_headers_finding)], P + 'load.py::load.rename_duplicate_headers'),
     Item('csv', None, [('fidelity', nat_csv), ('cast-on-error', nat_cast_on_error)], P + 'load.py::load'),
 ]
